@@ -229,3 +229,96 @@ Corollary src_score_chunk_chunk_holder : forall (scorer : scorer_t) s rng n k ba
   src_score_chunk (fun ps => map (fun p => (fst p, scorer (fst p) (snd p))) ps) s rng n k (Some batch)
   = chunk_holder scorer s batch n k.
 Proof. intros. rewrite src_score_chunk_is_model. reflexivity. Qed.
+
+(* ---- ChunkedScoresHolder: add_score, combine, plate_id_with_minimum_score, concat ----
+   the two numpy arrays are lists; a model holder h is represented by holder_arrays h *)
+Lemma list_set_nat {A} tag (l : list A) (c : nat) v :
+  list_set tag l (Z.of_nat c) v
+  = if (c <? length l)%nat then Ok (firstn c l ++ v :: skipn (S c) l) else Err tag.
+Proof.
+  unfold list_set. destruct (Z.ltb_spec (Z.of_nat c) 0) as [H|_]; [lia|].
+  rewrite Nat2Z.id. destruct (Nat.ltb_spec c (length l)) as [H|H].
+  - replace ((0 <=? Z.of_nat c) && (Z.of_nat c <? Z.of_nat (length l))) with true; [reflexivity|].
+    symmetry. apply andb_true_iff. split; [apply Z.leb_le | apply Z.ltb_lt]; lia.
+  - replace ((0 <=? Z.of_nat c) && (Z.of_nat c <? Z.of_nat (length l))) with false; [reflexivity|].
+    symmetry. apply andb_false_iff. right. apply Z.ltb_ge. lia.
+Qed.
+
+Theorem src_add_score_is_model : forall (h : holder) (pid sc : Z),
+  src_add_score (map snd (h_slots h)) (map fst (h_slots h)) (Z.of_nat (h_cur h)) pid sc
+  = dor h' <- add_score h pid sc; Ok (holder_arrays h').
+Proof.
+  intros [size slots cur] pid sc. unfold src_add_score, add_score, holder_arrays. cbn [h_size h_slots h_cur].
+  rewrite !list_set_nat, !map_length. unfold slot in *. destruct (cur <? length slots)%nat; cbn [res_bind]; [|reflexivity].
+  cbn [h_slots h_cur]. rewrite !map_app. cbn [map fst snd]. rewrite <- !firstn_map, <- !skipn_map.
+  do 3 f_equal. lia.
+Qed.
+
+Theorem src_combine_is_model : forall (a b : holder),
+  src_combine (map snd (h_slots a)) (map fst (h_slots a)) (Z.of_nat (h_cur a))
+              (map snd (h_slots b)) (map fst (h_slots b))
+  = Ok (holder_arrays (h_combine a b)).
+Proof.
+  intros a b. unfold src_combine, h_combine, holder_arrays. cbn [h_slots h_cur].
+  rewrite !map_app, map_length. do 3 f_equal. now rewrite Nat2Z.inj_add.
+Qed.
+
+(* argmin over the score array = the model's first-minimum slot *)
+Lemma argmin_from_first (l : list slot) :
+  match argmin_first l, argmin_from (map snd l) with
+  | None, None => True
+  | Some x, Some (j, y) => nth_error l j = Some x /\ y = snd x
+  | _, _ => False
+  end.
+Proof.
+  induction l as [|x l IH]; cbn [argmin_first argmin_from map]; [exact I|].
+  destruct (argmin_first l) as [m|], (argmin_from (map snd l)) as [[j y]|]; try contradiction.
+  - destruct IH as [Hn ->]. destruct (snd m <? snd x); split; try reflexivity. exact Hn.
+  - split; reflexivity.
+Qed.
+
+Lemma array_item_nth (l : list slot) j x :
+  nth_error l j = Some x -> array_item (map fst l) (Z.of_nat j) = Ok (fst x).
+Proof.
+  intros H. unfold array_item. assert (Hj : (j < length l)%nat) by (apply nth_error_Some; congruence).
+  unfold slot in *. rewrite py_index_in_range by (rewrite map_length; lia).
+  rewrite Nat2Z.id, nth_error_map, H. reflexivity.
+Qed.
+
+Lemma argmin_then_item (l : list slot) :
+  (dor j <- argmin_index (map snd l); array_item (map fst l) j)
+  = match argmin_first l with Some sl => Ok (fst sl) | None => Err 6 end.
+Proof.
+  unfold argmin_index. pose proof (argmin_from_first l) as H.
+  destruct (argmin_first l) as [m|], (argmin_from (map snd l)) as [[j y]|]; try contradiction; [|reflexivity].
+  destruct H as [Hn _]. cbn [res_bind]. now apply array_item_nth.
+Qed.
+
+Lemma mask_select_map (g : slot -> Z) (p : slot -> bool) (l : list slot) :
+  mask_select (map g l) (map p l) = Ok (map g (filter p l)).
+Proof.
+  unfold mask_select. rewrite !map_length, Nat.eqb_refl. f_equal.
+  induction l as [|x l IH]; cbn [map combine filter snd]; [reflexivity|].
+  destruct (p x); cbn [map fst]; now rewrite IH.
+Qed.
+
+Theorem src_plate_id_with_minimum_score_is_model : forall (h : holder) (eligible : option (list Z)),
+  src_plate_id_with_minimum_score (map snd (h_slots h)) (map fst (h_slots h)) eligible = min_plate h eligible.
+Proof.
+  intros h [e|]; unfold src_plate_id_with_minimum_score, min_plate; cbn [is_none unwrap res_bind].
+  - unfold isin. rewrite map_map. rewrite !(mask_select_map _ (fun sl => zmem (fst sl) e)). cbn [res_bind].
+    pose proof (argmin_then_item (filter (fun sl => zmem (fst sl) e) (h_slots h))) as H.
+    destruct (argmin_index _) as [j|t]; cbn [res_bind] in *.
+    + destruct (array_item _ j); exact H.
+    + exact H.
+  - pose proof (argmin_then_item (h_slots h)) as H.
+    destruct (argmin_index _) as [j|t]; cbn [res_bind] in *.
+    + destruct (array_item _ j); exact H.
+    + exact H.
+Qed.
+
+Theorem src_concat_is_model : forall hs : list holder, src_concat hs = h_concat hs.
+Proof.
+  intros [|h t]; unfold src_concat, h_concat; cbn [is_nil negb list_head res_bind tl]; [reflexivity|].
+  rewrite (res_fold_pure _ h_combine) by reflexivity. reflexivity.
+Qed.
